@@ -249,24 +249,32 @@ def m1(prog: Program, chk: Check) -> None:
                  "backends.pt_tebd_backend:PtTebdBackend.apply_process_tensors",
                  "process_tensor:SimpleProcessTensor.compute_caps",
                  "process_tensor:FileProcessTensor.compute_caps"]
+    leg_role_table(prog, chk, "M1", consumers)
+    _m1_rest(prog, chk)
+
+
+def leg_role_table(prog: Program, chk: Check, rule: str, consumers: List[str]) -> None:
     for q in consumers:
         u = prog.unit(q)
         chk.saw(u)
         names = _node_name_of_mpo(u)
         if not names:
-            raise AnalysisError(f"M1: no tn.Node(<mpo tensor>) in {q}")
+            raise AnalysisError(f"{rule}: no tn.Node(<mpo tensor>) in {q}")
         roles = _leg_roles(u, names)
         bad = {ax: sorted(r) for ax, r in roles.items() if ax in WANT and not r <= WANT[ax]}
         seen = {ax for ax in roles if ax in WANT}
         if len(seen) < 3 and not bad:
             raise AnalysisError(
-                f"M1: only {len(seen)} leg roles recognised in {q} - the local-name vocabulary "
+                f"{rule}: only {len(seen)} leg roles recognised in {q} - the local-name vocabulary "
                 f"(bond / sys / phys / cap / trace_in / trace_out) no longer matches the code")
         ok = not bad
-        chk.add("M1", u, f"leg roles { {ax: sorted(r) for ax, r in sorted(roles.items())} }", ok,
+        chk.add(rule, u, f"leg roles { {ax: sorted(r) for ax, r in sorted(roles.items())} }", ok,
                 "" if ok else
                 f"this consumer uses axis {sorted(bad)} as {bad} - the siblings use "
                 f"{ {k: sorted(v) for k, v in WANT.items()} }")
+
+
+def _m1_rest(prog: Program, chk: Check) -> None:
     # backprop swap and delta expansion
     for q in ("process_tensor:SimpleProcessTensor.get_mpo_tensor",
               "process_tensor:FileProcessTensor.get_mpo_tensor"):
